@@ -62,7 +62,8 @@ Definition starts_with2 (s : list N) (c d : N) : bool :=
 
 Definition pos := (nat * nat)%type.     (* Position(line, column), both 0-based *)
 
-Definition next_n_column (p : pos) (n : nat) : pos := (fst p, snd p + n).
+(* (the small operand comes first so that the extracted unary addition shares the large one) *)
+Definition next_n_column (p : pos) (n : nat) : pos := (fst p, n + snd p).
 Definition next_line_or_column (p : pos) (c : N) : pos :=
   if (c =? NL)%N then (S (fst p), 0) else (fst p, S (snd p)).
 
@@ -345,7 +346,7 @@ Definition next_raw (s : list N) (p : pos) (off : nat)
   : res (option (tok * list lexerr * nat * pos)) :=
   let '(w, p1) := skip_ws s p in
   let r := skipn w s in
-  let o := off + w in
+  let o := w + off in
   match lex_str r with
   | Oob => Oob | Fuel => Fuel
   | Ok (Some n) =>
@@ -393,7 +394,7 @@ Fixpoint raw_loop (fuel : nat) (s : list N) (p : pos) (off : nat)
     | Oob => Oob | Fuel => Fuel
     | Ok None => Ok ([], [])
     | Ok (Some (t, es, n, p')) =>
-      match raw_loop f (skipn n s) p' (off + n) with
+      match raw_loop f (skipn n s) p' (n + off) with
       | Ok (ts, es') => Ok (t :: ts, es ++ es')
       | Oob => Oob | Fuel => Fuel
       end
